@@ -32,11 +32,12 @@ var c19Lines = []string{
 	"##!+ i", "##!+ s", "##!^ p(", "##!$ )s", "##!^ x", "##!$ y",
 	"##!> define x (", "##!> define y {{x}}", "##!> define x a{{x}}", "##!> define x {{y}}b", "##!> include x", "##!> include-except x x", "##!> include x -- x y", "##!> include x -- a", "##! c", "",
 	"'a", "a@", "a~", `a\@`, "@", "\t", "##!> include inc",
+	"\xef", "\xef\xbb", "\xef\xbb\xbfa", "\xc3",
 }
 
 type c19Site struct {
 	Count   int    `json:"count"`
-	Example string `json:"example"`
+	Example core.Bytes `json:"example"`
 	Mode    string `json:"mode"`
 	Msg     string `json:"msg"`
 }
@@ -139,12 +140,12 @@ func C19(r *core.Run) {
 				key := o.Kind + "@" + o.Site
 				s := res.Sites[key]
 				if s == nil {
-					s = &c19Site{Example: text, Mode: mode, Msg: o.Msg}
+					s = &c19Site{Example: core.Bytes(text), Mode: mode, Msg: o.Msg}
 					res.Sites[key] = s
 				}
 				s.Count++
 				if len(text) < len(s.Example) {
-					s.Example, s.Mode, s.Msg = text, mode, o.Msg
+					s.Example, s.Mode, s.Msg = core.Bytes(text), mode, o.Msg
 				}
 			}
 		}
@@ -239,7 +240,7 @@ func C19(r *core.Run) {
 	sort.Strings(keys)
 	for _, k := range keys {
 		s := total.Sites[k]
-		text := s.Example
+		text := string(s.Example)
 		tree := c19Tree()
 		stdin := text
 		if s.Mode == "include" {
